@@ -1,5 +1,8 @@
 import Driver.Codec
 import Driver.Regex
+import Driver.SchemaDesc
+import JSV.Model.Marshal
+import JSV.Model.Clone
 import JSV.Model.Equal
 import JSV.Model.Hash
 import JSV.Model.Unmarshal
@@ -125,6 +128,20 @@ def mkSpecEnv (u : Universe) (rs : Go.Resolved) : Spec.Env :=
 
 def hList (u : Universe) : Lean.Json := .arr (if u.folded then #[.str "D4"] else #[])
 
+/-- result of Marshal on the model, and of unmarshal ∘ marshal again -/
+def marshalOut (st : Store) (root : NodeId) : Lean.Json :=
+  match Go.marshal st root with
+  | .ok j =>
+    let rt : Lean.Json := match Go.unmarshal j #[] with
+      | .ok (r2, st2) => match Go.marshal st2 r2 with
+        | .ok j2 => Lean.Json.mkObj [("rt", "ok"), ("rt_value", encodeJson j2)]
+        | _ => Lean.Json.mkObj [("rt", "marshal-error")]
+      | _ => Lean.Json.mkObj [("rt", "unmarshal-error")]
+    (outcome "ok" [("value", encodeJson j)]).mergeObj rt
+  | .err => outcome "marshal-error"
+  | .panic => outcome "panic"
+  | .fuel => outcome "fuel"
+
 def handleValidate (args : Lean.Json) : Except String Lean.Json := do
   let base := ((getArg args "base").getStr?).toOption.getD ""
   match ← buildUniverse args with
@@ -200,6 +217,34 @@ def handle (op : String) (args : Lean.Json) : Except String Lean.Json := do
       | _, _ => .null
     pure (Lean.Json.mkObj [("model", Lean.Json.mkObj [("outcome", "ok"),
       ("equal", match eq with | .ok b => .bool b | _ => .null), ("hash_equal", encEq)])])
+  | "marshal" =>
+    let (st, root) ← decodeStore (getArg args "desc")
+    pure (Lean.Json.mkObj [("model", marshalOut st root)])
+  | "roundtrip-doc" =>
+    let doc ← decodeJson (getArg args "doc")
+    match Go.unmarshal doc #[] with
+    | .ok (root, st) =>
+      pure (Lean.Json.mkObj [("model", marshalOut st root),
+        ("H", .arr (if Go.hasFoldedKey doc then #[.str "D4"] else #[]))])
+    | .err => pure (Lean.Json.mkObj [("model", outcome "unmarshal-error")])
+    | .panic => pure (Lean.Json.mkObj [("model", outcome "panic")])
+    | .fuel => pure (Lean.Json.mkObj [("model", outcome "fuel")])
+  | "clone" =>
+    let (st, root) ← decodeStore (getArg args "desc")
+    match Go.clone st root with
+    | .ok (c, st') =>
+      let a := Go.reachable st' (st'.size + 1) [root]
+      let b := Go.reachable st' (st'.size + 1) [c]
+      let shared := (b.filter fun x => a.contains x).length
+      let textOf (r : Res Json) : Lean.Json := match r with
+        | .ok j => encodeJson j
+        | _ => .null
+      pure (Lean.Json.mkObj [("model", outcome "ok" [
+        ("marshal", str (match Go.marshal st' root with | .ok _ => "ok" | _ => "error")),
+        ("value", textOf (Go.marshal st' root)), ("clone_value", textOf (Go.marshal st' c)),
+        ("shared", .num shared), ("count", .arr #[.num a.eraseDups.length, .num b.eraseDups.length])])])
+    | .fuel => pure (Lean.Json.mkObj [("model", outcome "fuel")])
+    | _ => pure (Lean.Json.mkObj [("model", outcome "panic")])
   | "validate" => handleValidate args
   | "decorate" =>
     let ra ← handleValidate args
